@@ -4,6 +4,7 @@ CONSTANTS
   MaxLen = 3
   Levels = {"warn"}
   Modes = {"arg"}
+  L1Variant = "fixed"
 INVARIANT DecoderSane
 INVARIANT EmitCases
 CHECK_DEADLOCK FALSE
